@@ -186,13 +186,19 @@ class Source:
         defs = []
         for m in ms:
             j = m.end()
-            while j < len(t) and t[j].isspace():
-                j += 1
+            while True:
+                while j < len(t) and t[j].isspace():
+                    j += 1
+                q = re.compile(r"(const|noexcept|override|final)\b").match(t, j)
+                if not q:
+                    break
+                j = q.end()
             if j < len(t) and t[j] in "{:":
                 defs.append((m, j))
         if len(defs) <= nth:
             raise ExtractionError("%s: function %r (occurrence %d) not found" % (rel, sig, nth))
         m, j = defs[nth]
+        quals = t[m.end():j].split()
         init = ""
         if t[j] == ":":
             # mem-initialiser list up to the body's opening brace (brace-init not used in nitro ctor lists
@@ -226,7 +232,7 @@ class Source:
         span = t[m.start():end + 1]
         key = "%s#%s#%d" % (rel, sig, nth)
         self.digests[key] = hashlib.sha256(span.encode()).hexdigest()[:16]
-        return {"header": t[m.start():m.end()], "init": init, "body": body, "span": span,
+        return {"header": t[m.start():m.end()], "quals": quals, "init": init, "body": body, "span": span,
                 "line": self.text(rel)[:base + m.start()].count("\n") + 1}
 
     def members(self, rel, class_re):
